@@ -103,10 +103,11 @@ class BasePolicy:
 
 
 class TagFlow:
-    def __init__(self, prog, fn, policy: BasePolicy):
+    def __init__(self, prog, fn, policy: BasePolicy, may: bool = False):
         self.prog = prog
         self.fn = fn
         self.policy = policy
+        self.may = may  # True: join = union (may-analysis, e.g. aliasing / taint)
         self.cfg: CFG = cfg_of(fn)
         self.inn: Dict[int, Optional[dict]] = {}
         self.out: Dict[int, Optional[dict]] = {}
@@ -123,6 +124,11 @@ class TagFlow:
             return None if b is None else dict(b)
         if b is None:
             return dict(a)
+        if self.may:
+            out = dict(a)
+            for k, v in b.items():
+                out[k] = out.get(k, EMPTY) | v
+            return out
         out = {}
         for k in a.keys() | b.keys():
             if k in a and k in b:
@@ -155,9 +161,12 @@ class TagFlow:
         if isinstance(target, ast.Subscript):
             # partial in-place update: weak
             bp = path_of(target.value)
-            if bp is not None:
+            if bp is not None and not self.may:
                 cur = state[bp] if bp in state else self.policy.default_tags(bp)
                 state[bp] = cur & tags
+            elif bp is not None:
+                cur = state[bp] if bp in state else self.policy.default_tags(bp)
+                state[bp] = cur | tags
 
     def _transfer(self, node, state: dict) -> dict:
         s = node.stmt
